@@ -82,6 +82,9 @@ func parseProfile(text string) (mode string, blocks []covBlock, err error) {
 		if _, e := fmt.Sscanf(l[i+1:], "%d.%d,%d.%d %d %d", &b.sl, &b.sc, &b.el, &b.ec, &b.n, &b.cnt); e != nil {
 			return mode, nil, fmt.Errorf("malformed profile line %q: %v", l, e)
 		}
+		if canon := fmt.Sprintf("%d.%d,%d.%d %d %d", b.sl, b.sc, b.el, b.ec, b.n, b.cnt); canon != l[i+1:] {
+			return mode, nil, fmt.Errorf("malformed profile line %q: not plain decimal integers (read as %q)", l, canon)
+		}
 		blocks = append(blocks, b)
 	}
 	return mode, blocks, nil
@@ -353,6 +356,9 @@ func c18Check(c *core.Ctx, cs c18Case) {
 				}
 			}
 			c.Count("count_checked_programs", 1)
+			if cs.Family == "hot" {
+				c.Count("hot_loop_counts_checked", 1)
+			}
 			c.Count("count_checked_blocks", len(blocks))
 		} else {
 			c.Count("count_oracle_unavailable", 1)
@@ -389,6 +395,12 @@ var c18Special = []string{
 	"BEGIN { print 1\nprint 2\n\nprint 3 }\n", "BEGIN {\n\tif (1)\n\t\tprint \"a\"\n\telse\n\t\tprint \"b\"\n}\n", "BEGIN { while (i < 3) i++; print i }\n", "BEGIN { if (1) print 1; print 2; if (0) print 3; print 4 }\n",
 	"BEGIN { i = 5; do i--; while (i > 0); print i }\n", "function f(n) { if (n > 0) return f(n - 1) + 1; return 0 }\nBEGIN { print f(3) }\n",
 	"BEGIN { for (i = 0; i < 4; i++) { if (i == 1) continue; if (i == 3) break; print i } }\n", "{ n++ } END { print n; for (i = 0; i < n; i++) s += i; print s }\n",
+}
+
+var c18Hot = []string{
+	"BEGIN { while (i < 1200000) i++; print i }\n",
+	"function f() { n++ }\nBEGIN { for (i = 0; i < 1000000; i++) f(); print n }\n",
+	"END { for (i = 0; i < 999999; i++) { k++ }; for (j = 0; j < 1000001; j++) { m++ }; print k, m, NR }\n",
 }
 
 func c18Generate(seed int64) c18Case {
@@ -452,7 +464,7 @@ func init() {
 		},
 		NBatches: func(t core.Tier) int { return n(t, 16, 64) },
 		Floors: func(t core.Tier) map[string]int {
-			return map[string]int{"evaluations": n(t, 1500, 80000), "distinct_nontrivial": n(t, 600, 30000), "count_checked_programs": n(t, 300, 12000), "transparent_runs": n(t, 700, 35000), "append_checked": n(t, 30, 1000)}
+			return map[string]int{"evaluations": n(t, 1500, 80000), "distinct_nontrivial": n(t, 600, 30000), "count_checked_programs": n(t, 300, 12000), "transparent_runs": n(t, 700, 35000), "append_checked": n(t, 30, 1000), "hot_loop_counts_checked": len(c18Hot)}
 		},
 		Run: func(c *core.Ctx) {
 			rng := c.Rand("cases")
@@ -461,6 +473,14 @@ func init() {
 					if c.Mine(i*2 + mi) {
 						c18Check(c, c18Case{Family: "special", Files: []string{s}, Mode: mode, Env: diffrun.Case{Stdin: "a b\nc\nabc\n\nb a\n"}})
 					}
+				}
+			}
+			// counts far above what generated programs reach (a million and more), checked against the
+			// reference evaluator running with a larger budget
+			for i, s := range c18Hot {
+				if c.Mine(100 + i) {
+					c18Check(c, c18Case{Family: "hot", Files: []string{s}, Mode: "count", Env: diffrun.Case{Stdin: "a\nb\n", Fuel: 40_000_000}})
+					c.Count("hot_loop_cases", 1)
 				}
 			}
 			total := n(c.Tier, 1200, 60000) / c.NBatches
